@@ -71,6 +71,11 @@ MUTANTS = [
      '                            "class": type(self).__name__,\n                            "year": self.year,\n                        },\n                    }\n                )\n            )\n\n    @dataclass(eq=True, unsafe_hash=True)\n    class Metadata(FullCitation.Metadata):\n        """Define fields on self.metadata."""\n\n        # court', ["C16"]),
     ("hash-placeholder-by-value", "eyecite/models.py", '        if self.groups["page"] is None:\n            return id(self)\n        else:\n            return hash(', '        if False:\n            return id(self)\n        else:\n            return hash(', ["C16", "C06"]),
     ("hash-ignores-class", "eyecite/models.py", '                            "reporter": self.corrected_reporter(),\n                            "class": type(self).__name__,', '                            "reporter": self.corrected_reporter(),', ["C16"]),
+    ("markup-search-from-0", "eyecite/find.py", "        start_in_markup = document.plain_to_markup.update(\n            citation.span()[0], bisect_right\n        )",
+     "        start_in_markup = 0", ["C19"]),
+    ("markup-drop-valid-name", "eyecite/find.py", "            if not is_valid_name(value):\n                continue\n", "", ["C19"]),
+    ("pincited-drop-valid-name", "eyecite/find.py", "        if (value := getattr(citation.metadata, key, None))\n        and is_valid_name(value)\n",
+     "        if (value := getattr(citation.metadata, key, None))\n", ["C19"]),
 ]
 
 
